@@ -465,9 +465,15 @@ func DiffMergeKey(p *core.Program, r *core.Report, rule string) {
 	})
 	okKey := false
 	desc := ""
+	var keyPeer types.Object
 	if keyID != nil {
 		def, _ := defOf(add, keyID)
 		parts := flattenConcat(def)
+		if len(parts) > 0 {
+			if id0, isID := ast.Unparen(parts[0]).(*ast.Ident); isID {
+				keyPeer = info.ObjectOf(id0)
+			}
+		}
 		var ps []string
 		for _, e := range parts {
 			ps = append(ps, core.ExprStr(e))
@@ -496,7 +502,7 @@ func DiffMergeKey(p *core.Program, r *core.Report, rule string) {
 				return
 			}
 			id, ok := as.Lhs[0].(*ast.Ident)
-			if !ok || id.Name != "srcOrDstKey" {
+			if !ok || keyPeer == nil || info.ObjectOf(id) != keyPeer {
 				return
 			}
 			n++
